@@ -7,7 +7,7 @@ a = d.index("## 10. Seeded changes")
 b = d.index("## 11. Corrections made to the machinery itself")
 bp = open(V + "/seeded/BY_PROPERTY.md").read()
 hr = open(V + "/seeded/harmless/RESULTS.md").read()
-rows = [l for l in hr.split("\n") if l.startswith("| A") or l.startswith("| B")]
+rows = [l for l in hr.split("\n") if re.match(r"\| [A-D]\d ", l)]
 alarms = [l for l in rows if "ALARM" in l]
 free = []
 for f in sorted(glob.glob(V + "/seeded/FREE*/meta.json")):
